@@ -58,6 +58,9 @@ MonInit(e) ==
     final |-> FALSE,        \* the combinator has produced its final result
     lastRet |-> "none",     \* "none" | "pending" | "item" | "final"
     g |-> -1, woken |-> FALSE, infire |-> FALSE,
+    thr |-> FALSE,          \* other threads are invoking wakers concurrently (thread mode)
+    open |-> <<>>,          \* thread mode: waker identities whose invocation has started and not yet returned
+    thrEver |-> FALSE,      \* this run had a thread phase
     ch |-> IF IsGroup(e.fam) \/ e.fam = "co"
              THEN IF e.fam = "co"
                     THEN (0 :> IF e.cont = "vec"
@@ -118,7 +121,10 @@ OnCpoll(m, e) ==
              \cup V(m.final, "C03", <<"child polled after the combinator's final result", c>>)
              \cup V(~known, "C03", <<"unknown child polled", c>>)
       \* C16: selective polling in the std sub-waker families
-      b16 == V(known /\ m.sub /\ IsSubFam(m.fam) /\ ch.ans = "pending" /\ ~ch.firedA,
+      openHit == \E i \in DOMAIN m.open : m.open[i] \in (ch.wids \cup {e.wid})
+      \* (not judged in runs with a thread phase: the `cpoll` event is logged after the readiness bit was
+      \*  cleared, so a concurrent wake-up landing in between cannot be ordered against it black-box)
+      b16 == V(known /\ m.sub /\ IsSubFam(m.fam) /\ ch.ans = "pending" /\ ~ch.firedA /\ ~openHit /\ ~m.thrEver,
                "C16", <<"pending child re-polled without any of its wakers having fired", c>>)
       \* C05 / C06 / C07: nothing is polled after the deciding answer
       b05 == V(m.fam = "try_join" /\ m.errSeen, "C05", <<"child polled after a failure was seen", c>>)
@@ -136,7 +142,7 @@ OnCpoll(m, e) ==
       arm == A(known /\ m.sub /\ ch.ans = "pending", "C16.repoll")
              \cup A(known /\ ch.ans = "pending" /\ ch.firedL, "C01.repoll_after_wake")
       nch == [ch EXCEPT !.polls = @ + 1, !.lwid = e.wid, !.wids = @ \cup {e.wid},
-                        !.firedL = FALSE, !.firedA = FALSE]
+                        !.firedL = FALSE, !.firedA = openHit]
   IN Arm(AddBad([m EXCEPT !.ch = (c :> nch) @@ m.ch],
          b03 \cup b16 \cup b05 \cup b06 \cup b07 \cup b10 \cup b19), arm)
 
@@ -195,6 +201,26 @@ OnRepoll(m, e) == Arm([m EXCEPT !.phase = "inpoll", !.g = e.g, !.woken = FALSE, 
 OnReret(m, e) == [m EXCEPT !.phase = "idle"]
 
 OnPwake(m, e) == [m EXCEPT !.woken = @ \/ (e.g = m.g)]
+
+\* Thread mode.  A `tfire` is logged when another thread is about to invoke a handed waker (under the same lock
+\* as the `cpoll` events, so "since the child's last poll began" is exact); the invocation itself happens some
+\* time later, so no instantaneous obligation is evaluated while threads are running: a lost wake-up shows up
+\* at the quiescence check of the single-threaded epilogue.
+OnTstart(m, e) == Arm([m EXCEPT !.thr = TRUE, !.thrEver = TRUE], {"C01.threads"})
+OnTjoin(m, e) == [m EXCEPT !.thr = FALSE]
+\* the invocation returned: it may have taken effect after a poll of the child that began after `tfire`, so it
+\* counts as "a waker of the child fired since its last poll" for the selective-polling rule (C16) again
+OnTfired(m, e) ==
+  LET i == IF \E j \in DOMAIN m.open : m.open[j] = e.wid THEN CHOOSE j \in DOMAIN m.open : m.open[j] = e.wid ELSE 0
+      rest == IF i = 0 THEN m.open ELSE SubSeq(m.open, 1, i - 1) \o SubSeq(m.open, i + 1, Len(m.open))
+  IN [m EXCEPT !.open = rest,
+               !.ch = [c \in Kids(m) |-> [m.ch[c] EXCEPT !.firedA = @ \/ (e.wid \in m.ch[c].wids)]]]
+OnTfire(m, e) ==
+  LET w == e.wid
+      nch == [c \in Kids(m) |->
+                [m.ch[c] EXCEPT !.firedL = @ \/ (m.ch[c].lwid = w),
+                                !.firedA = @ \/ (w \in m.ch[c].wids)]]
+  IN Arm([m EXCEPT !.ch = nch, !.open = Append(@, w)], A(m.phase = "inpoll", "C01.thread_wake_mid_poll") \cup {"C01.thread_wake"})
 
 OnFired(m, e) ==
   LET m1 == [m EXCEPT !.infire = FALSE]
@@ -457,7 +483,7 @@ OnRet(m, e) ==
              \cup A(m.fam = "zip" /\ \E c \in Kids(m) : Len(m.ch[c].items) > m.nyield + (IF e.r = "some" THEN 1 ELSE 0), "C09.buffered")
              \cup A(m.fam \in {"wait_until", "wait_until_stream"} /\ ~Done(m, 0), "C19.before_deadline")
              \cup A(m.fam \in {"wait_until", "wait_until_stream"} /\ Done(m, 0), "C19.after_deadline")
-  IN Arm(AddBad(m1, b \cup (IF e.r = "pending" THEN C01Check(m1, "end of poll") ELSE {})), arm)
+  IN Arm(AddBad(m1, b \cup (IF e.r = "pending" /\ ~m.thr THEN C01Check(m1, "end of poll") ELSE {})), arm)
 
 ---------------------------------------------------------------------------
 (* quiesce: progress (C01) and completion in the presence of never-children (C20 part 2) *)
@@ -627,6 +653,10 @@ MonStep(m, e) ==
     [] e.e = "view"    -> OnView(m, e)
     [] e.e = "wnew"    -> OnWnew(m, e)
     [] e.e = "repoll"  -> OnRepoll(m, e)
+    [] e.e = "tstart"  -> OnTstart(m, e)
+    [] e.e = "tfire"   -> OnTfire(m, e)
+    [] e.e = "tfired"  -> OnTfired(m, e)
+    [] e.e = "tjoin"   -> OnTjoin(m, e)
     [] e.e = "reret"   -> OnReret(m, e)
     [] OTHER           -> m
 
